@@ -21,9 +21,9 @@ def h(name, unwind, body, props, tier, bounds, functions, cost=60, stub="nogrow"
 P8 = "P=(u8,u8), all lengths 0..=8, all host bits; T=u8"
 DESCENT = ["Table::get_direction", "Prefix::{eq,contains,is_bit_set,mask} for (u8,u8)"]
 INS = ["Table::get_direction_for_insert", "PrefixMap::new_node", "Table::set_child", "Prefix::longest_common_prefix"]
-INV_PROPS = ["C01", "C02", "C03", "C04", "C09", "C10", "C11", "C12", "C13", "C18", "C19", "C20"]
+INV_PROPS = ["C01", "C02", "C03", "C04", "C09", "C10", "C11", "C12", "C13", "C15", "C18", "C19", "C20"]
 GROUPS = {"ret": ("step::RET", ["C01", "C18"]), "len": ("step::LEN", ["C04"]),
-          "shape": ("step::SHAPE", ["C15"] + INV_PROPS), "slots": ("step::SLOTS", ["C16"] + INV_PROPS)}
+          "shape": ("step::SHAPE", list(dict.fromkeys(["C15"] + INV_PROPS))), "slots": ("step::SLOTS", list(dict.fromkeys(["C16"] + INV_PROPS)))}
 
 
 def pre_txt(n, f):
@@ -320,7 +320,7 @@ QUICK = {
     "C10": ["children_init[012]_n3", "step_iter_n3", "rmchildren_ret_n3", "retain_lite_n2"],
     "C11": ["view_at_(ro|mut)_n3", "view_nav_(ro|mut)_n3", "view_find[03]_ro_n3", "view_access[02]_n3"],
     "C12": ["view_find[0-3]_(ro|mut)_n3"],
-    "C13": ["obs_get_mut_n3", "obs_lpm_mut_n3", "whole_iter_mut_n3", "step_iter_mut_n3", "view_access[02]_n3", "inter_step_mut_n2", "union_init_mut_n2"],
+    "C13": ["obs_get_mut_n3", "obs_lpm_mut_n3", "whole_iter_mut_n3", "step_iter_mut_n3", "view_access[02]_n3", "inter_step_mut_n2", "(union|diff|covdiff)_init_mut_n2"],
     "C14": ["whole_iter_mut_n3", "step_iter_mut_n3", "view_nav_mut_n3", "view_find[02]_mut_n3", "view_access0_n3", "inter_init_mut_n2", "obs_get_mut_n3"],
     "C15": ["insert_shape_n2", "remove_shape_n[34]", "rkt_shape_n3", "clear_n3", "entry_top0_shape_n2", "retain_lite_struct_n2", "canon_unique_n4"],
     "C16": ["insert_slots_n2", "remove_slots_n[34]", "rkt_slots_n3", "rmchildren_slots_n3", "clear_n3", "entry_handle1_slots_n2"],
@@ -469,7 +469,7 @@ def manifest():
             "guard": "cargo feature `verif-hooks` of prefix-trie",
             "enable": "the harness crate /verif/harness depends on /repo by path with features = [\"verif-hooks\"]; cargo kani rebuilds it from the working tree on every run",
             "baseline_off_cmd": "cd /repo && cargo test --workspace --no-fail-fast --offline",
-            "source_commits": ["34f8a68", "57794d8"],
+            "source_commits": ["34f8a68", "57794d8", "0f24ec2"],
             "add_only": True,
         },
         "engines": [{"name": "kani-cbmc", "path": "/verif/check", "serves_properties": [c["property_id"] for c in checks],
